@@ -92,19 +92,18 @@ def closedB [DecidableEq L] (m : L → σ → Bool) (sig : List σ) (S : List (R
   S.all fun p => (!nullable p.1 || nullable p.2) &&
     sig.all fun c => isEmpty (step m c p.1) || S.contains (step m c p.1, step m c p.2)
 
+/-- O with statistics: the verdict and the number of pairs in the certificate. -/
+def inclRun [DecidableEq L] (m : L → σ → Bool) (sig : List σ) (fuel : Nat) (d b : Rx L) :
+    InclVerdict σ × Nat :=
+  match explore m sig fuel [([], d, b)] [] with
+  | .fuel => (.unknown, 0)
+  | .cex w => (if accepts m d w && !accepts m b w then .witness w else .unknown, 0)
+  | .cert S =>
+    (if closedB m sig S && (isEmpty d || S.contains (d, b)) then .included else .unknown, S.length)
+
 /-- O: decision of `L(d) ⊆ L(b)` on words over `sig`, with verified answers. -/
 def inclDecide [DecidableEq L] (m : L → σ → Bool) (sig : List σ) (fuel : Nat) (d b : Rx L) :
-    InclVerdict σ :=
-  match explore m sig fuel [([], d, b)] [] with
-  | .fuel => .unknown
-  | .cex w => if accepts m d w && !accepts m b w then .witness w else .unknown
-  | .cert S => if closedB m sig S && (isEmpty d || S.contains (d, b)) then .included else .unknown
-
-/-- number of pairs in the certificate (statistics for the evidence) -/
-def inclStates [DecidableEq L] (m : L → σ → Bool) (sig : List σ) (fuel : Nat) (d b : Rx L) : Nat :=
-  match explore m sig fuel [([], d, b)] [] with
-  | .cert S => S.length
-  | _ => 0
+    InclVerdict σ := (inclRun m sig fuel d b).1
 
 /-- bounded brute-force inclusion on an explicit word list (used by the driver as a cross-check of
     `inclDecide`): first word accepted by `d` and not by `b`. -/
